@@ -4,7 +4,6 @@ import (
 	"fmt"
 	"log"
 	"net"
-	"os"
 	"path/filepath"
 	"strings"
 	"time"
@@ -163,9 +162,15 @@ func RecoverNode(dataDir string, extensions []string, logger *log.Logger, logs r
 		return err
 	}
 
-	// Get a path to a temporary file to use for a temporary database.
+	// Get a path to a temporary file to use for a temporary database. Make sure
+	// nothing is left there by a previous recovery, or by one which didn't run to
+	// completion, since the database is built up from the snapshot and log only.
+	// The database runs in WAL mode, so there are WAL-related files too.
 	tmpDBPath := filepath.Join(dataDir, "recovery.db")
-	defer os.Remove(tmpDBPath)
+	if err := sql.RemoveFiles(tmpDBPath); err != nil {
+		return fmt.Errorf("failed to remove temporary database files: %s", err)
+	}
+	defer sql.RemoveFiles(tmpDBPath)
 
 	// Attempt to restore any latest snapshot.
 	var (
